@@ -27,6 +27,9 @@ type Case struct {
 	F   ref.Field `json:"field"`
 	V   ref.Value `json:"value"`
 	Pos int       `json:"pos"`
+	// Unknown: F is absent from every registry; the collector side runs in the lenient mode that
+	// keeps such elements as octet arrays of the announced length.
+	Unknown bool `json:"unknown,omitempty"`
 }
 
 var rec *ev.Recorder
@@ -136,11 +139,15 @@ func runCase(c Case) *ev.Failure {
 	if 16+4+2*len(want) > 65535 {
 		return nil
 	}
-	key := fmt.Sprintf("%d/%d/%d", c.F.ID, c.F.Len, c.Pos)
-	col := cols["tcp"]
+	key := fmt.Sprintf("%d/%d/%d/%d", c.F.Ent, c.F.ID, c.F.Len, c.Pos)
+	which, mode := "tcp", collector.DecodingModeStrict
+	if c.Unknown {
+		which, mode = "keep", collector.DecodingModeLenientKeepUnknown
+	}
+	col := cols[which]
 	if col == nil {
-		col = glue.NewCol("tcp", collector.DecodingModeStrict, nil, 0)
-		cols["tcp"] = col
+		col = glue.NewCol("tcp", mode, nil, 0)
+		cols[which] = col
 	}
 	id, ok := tplIDs[key]
 	if !ok {
@@ -150,7 +157,7 @@ func runCase(c Case) *ev.Failure {
 		tm := ref.TemplateMessage(ref.Header{Domain: 7}, ref.Template{ID: id, Fields: fields})
 		dr := col.Decode(tm, "127.0.0.1:1")
 		if dr.Panic != "" {
-			delete(cols, "tcp")
+			delete(cols, which)
 			tplIDs = map[string]uint16{}
 			return ev.Failf("collector panicked decoding the template for %v: %s", c.F, dr.Panic)
 		}
@@ -166,7 +173,7 @@ func runCase(c Case) *ev.Failure {
 	dm := ref.DataMessage(ref.Header{Domain: 7}, ref.Template{ID: id, Fields: fields}, [][]ref.Value{vals, vals2})
 	dr := col.Decode(dm, "127.0.0.1:1")
 	if dr.Panic != "" {
-		delete(cols, "tcp")
+		delete(cols, which)
 		tplIDs = map[string]uint16{}
 		return ev.Failf("collector panicked decoding the data set: %s", dr.Panic)
 	}
@@ -375,14 +382,63 @@ func TestC15(t *testing.T) {
 			}
 		}
 	})
+	// Phase 3c: every element of the loaded registries (IANA, reverse, Antrea) that has a supported
+	// type, once per position with a plain non-zero value: the codec must not depend on which
+	// element of a type carries the value.
+	t.Run("registry_elements", func(t *testing.T) {
+		for _, f := range glue.RegistryFields() {
+			v := ref.Value{U: 1}
+			if f.Type.IsBytes() {
+				n := f.Type.Width()
+				if f.Type == ref.TOctets || f.Type == ref.TString {
+					n = 5
+					if f.Len != ref.VarLen {
+						n = int(f.Len)
+					}
+				}
+				v = ref.Value{B: bytes.Repeat([]byte{0x5A}, n)}
+			}
+			for pos := 0; pos < 3; pos++ {
+				if !check(t, "registry_elements", Case{F: f, V: v, Pos: pos}, "registry_element_sweep") {
+					return
+				}
+			}
+		}
+	})
+	// Phase 3d: octet arrays of elements no registry knows, kept by a lenient collector at the
+	// announced length: one (enterprise, id) announced with every fixed length 1..64 and as
+	// variable-length, by successive templates of one collecting process.
+	t.Run("unknown_octets", func(t *testing.T) {
+		for _, n := range append(seq(1, 64), int(ref.VarLen)) {
+			f := ref.Field{ID: 77, Ent: 4242, Len: uint16(n), Type: ref.TOctets}
+			l := n
+			if f.Len == ref.VarLen {
+				l = 9
+			}
+			for pos := 0; pos < 3; pos++ {
+				if !check(t, "unknown_octets", Case{F: f, V: ref.Value{B: bytes.Repeat([]byte{byte(n)}, l)}, Pos: pos, Unknown: true}, "unknown_octets_enum") {
+					return
+				}
+			}
+		}
+	})
 	// Phase 4: boundary + random values of every type.
 	all := glue.UserFields()
+	reg := glue.RegistryFields()
 	ev.Rapid(t, rec, "random", rec.Scale(60000, 60000000), func(t *rapid.T) Case {
 		var f ref.Field
 		if rapid.IntRange(0, 9).Draw(t, "fixedoct") == 0 {
 			f = glue.UserFixedOctets(rapid.SampledFrom(append(seq(1, 100), glue.LongFixedOctets...)).Draw(t, "n"))
 		} else {
 			f = all[rapid.IntRange(0, int(ref.NumTypes)-1).Draw(t, "type")]
+		}
+		switch rapid.IntRange(0, 9).Draw(t, "elem") {
+		case 0, 1: // any registry element
+			f = reg[rapid.IntRange(0, len(reg)-1).Draw(t, "reg")]
+		case 2: // an element no registry knows, any announced length
+			f = ref.Field{ID: uint16(rapid.IntRange(20000, 20003).Draw(t, "uid")), Ent: rapid.SampledFrom([]uint32{0, 4242, 29305}).Draw(t, "uent"), Type: ref.TOctets,
+				Len: rapid.SampledFrom([]uint16{1, 2, 3, 4, 7, 8, 16, 100, ref.VarLen, ref.VarLen}).Draw(t, "ulen")}
+			return Case{F: f, V: gen.Value(t, f, 65535), Pos: rapid.IntRange(0, 2).Draw(t, "pos"), Unknown: true}
 		}
 		return Case{F: f, V: gen.Value(t, f, 65535), Pos: rapid.IntRange(0, 2).Draw(t, "pos")}
 	}, func(c Case) *ev.Failure {
